@@ -277,6 +277,76 @@ func c18Exec(c c18Case, st *lab.Stats) *lab.Fail {
 				}
 			}
 			return
+		case "tls-then-plaintext":
+			// a conforming session that is then shut down at the TLS level (close_notify) while the TCP
+			// connection stays open; what follows is plaintext and must not reach a handler
+			rawc, err := net.DialTimeout("tcp", tg.addr, 5*time.Second)
+			if err != nil {
+				outs[i].detail = "dial: " + err.Error()
+				return
+			}
+			defer rawc.Close()
+			tc := tls.Client(rawc, tg.validCfg)
+			_ = tc.SetDeadline(time.Now().Add(5 * time.Second))
+			if err := tc.Handshake(); err != nil {
+				outs[i].detail = "handshake: " + err.Error()
+				return
+			}
+			outs[i].handshakeOK = true
+			_ = tc.CloseWrite() // sends close_notify, keeps the TCP connection
+			// drain the server's own closure alert, if it sends one
+			_ = rawc.SetReadDeadline(time.Now().Add(100 * time.Millisecond))
+			tmp := make([]byte, 1024)
+			_, _ = tc.Read(tmp)
+			_ = rawc.SetDeadline(time.Now().Add(500 * time.Millisecond))
+			if _, err := rawc.Write(req); err == nil {
+				outs[i].sentRequest = true
+			}
+			for {
+				k, err := rawc.Read(tmp)
+				if k > 0 {
+					if nd, _, perr := wire.ParseOne(tmp[:k]); perr == nil {
+						if m, merr := wire.ParseMessage(nd); merr == nil && m.ID == id {
+							outs[i].answered = true
+						}
+					}
+				}
+				if err != nil {
+					break
+				}
+			}
+			return
+		case "tls-resume-foreign":
+			// a client of ANOTHER deployment (other CA) that first talks to its own server and then
+			// offers the session it got there to this server
+			other := "dir-mtls"
+			if c.Target == "dir-mtls" {
+				other = "server-mtls"
+			}
+			og, err := c18Get(other)
+			if err != nil || !tg.mtls {
+				outs[i].detail = "no foreign deployment"
+				return
+			}
+			cache := tls.NewLRUClientSessionCache(8)
+			own := og.validCfg.Clone()
+			own.ClientSessionCache = cache
+			if cl, err := lab.DialTLS(og.addr, own); err == nil {
+				// one round trip so that the session ticket has been received
+				pid := atomic.AddInt64(&c18Counter, 1) + 1000
+				pop := "search"
+				if other == "dir-mtls" {
+					pop = "bind"
+				}
+				_ = cl.Send(c18Request(pop, pid, "cn=nobody"))
+				_, _ = cl.Next(2 * time.Second)
+				cl.Close()
+			}
+			// same client certificate and session cache, but this server's address (its CA is trusted for the server side)
+			cfg = &tls.Config{RootCAs: tg.validCfg.RootCAs, ServerName: "localhost", Certificates: og.validCfg.Certificates, ClientSessionCache: cache}
+			if cfg.Certificates == nil && og.validCfg.GetClientCertificate != nil {
+				cfg.GetClientCertificate = og.validCfg.GetClientCertificate
+			}
 		case "tls-nocert":
 			cfg = tg.noCertCfg
 		case "tls-otherca":
@@ -351,6 +421,9 @@ func c18Exec(c c18Case, st *lab.Stats) *lab.Fail {
 		if o.Kind == "silent-flood" {
 			continue // judged through its probe below
 		}
+		if o.Kind == "tls-resume-foreign" && !tg.mtls {
+			continue // without client authentication there is nothing foreign about it
+		}
 		allowed := o.Kind == "valid" || (!tg.mtls && (o.Kind == "tls-nocert" || o.Kind == "tls-otherca" || o.Kind == "tls-selfsigned" || o.Kind == "tls-siblingca"))
 		ran := false
 		if tg.dir == nil {
@@ -390,10 +463,11 @@ func forceCert(c tls.Certificate) func(*tls.CertificateRequestInfo) (*tls.Certif
 func TestC18(t *testing.T) {
 	ops := []string{"bind", "search", "modify", "add", "delete", "extended", "unbind"}
 	kinds := []string{"plaintext", "plaintext", "random", "silent", "partial-hello", "tls-nocert", "tls-otherca", "tls-siblingca", "tls-selfsigned", "valid",
-		"plaintext", "random", "silent", "partial-hello", "tls-nocert", "tls-otherca", "tls-siblingca", "tls-selfsigned", "valid", "silent-flood"}
+		"plaintext", "random", "silent", "partial-hello", "tls-nocert", "tls-otherca", "tls-siblingca", "tls-selfsigned", "valid", "silent-flood",
+		"tls-then-plaintext", "tls-then-plaintext", "tls-resume-foreign", "tls-resume-foreign"}
 	lab.Prop[c18Case]{
 		ID: "C18", Part: "tls-gate",
-		Rule: "rapid: targets = gldap.Server with the repository's own GetTLSConfig (server-auth only / WithMTLS) and a testdirectory.Directory started WithMTLS; 1..6 concurrent offenders per case = plaintext request of each of the 7 operations, random bytes, connect-and-stay-silent, partial ClientHello cut at a generated offset, TLS client without certificate, with a certificate of another CA, of a sibling deployment made by the same generator (same subject and serial, different CA key), self-signed, a flood of 2*NumCPU+8 silent connections held open while a conforming client arrives, plus the valid client, alongside 1..4 conforming bystanders; oracle = no handler entry (plain servers: recording handler keyed by reserved message IDs; directory: the Add the offender sent has no effect visible to a conforming client) and no response for offenders, bystanders and valid clients served; non-trivial = an offender that got as far as sending an LDAP request; distinct by hash of (target, offender)",
+		Rule: "rapid: targets = gldap.Server with the repository's own GetTLSConfig (server-auth only / WithMTLS) and a testdirectory.Directory started WithMTLS; 1..6 concurrent offenders per case = plaintext request of each of the 7 operations, random bytes, connect-and-stay-silent, partial ClientHello cut at a generated offset, TLS client without certificate, with a certificate of another CA, of a sibling deployment made by the same generator (same subject and serial, different CA key), self-signed, a flood of 2*NumCPU+8 silent connections held open while a conforming client arrives, a conforming session that sends close_notify and continues in plaintext on the same TCP connection, a client of another mTLS deployment in the same process that offers the TLS session it resumed from there, plus the valid client, alongside 1..4 conforming bystanders; oracle = no handler entry (plain servers: recording handler keyed by reserved message IDs; directory: the Add the offender sent has no effect visible to a conforming client) and no response for offenders, bystanders and valid clients served; non-trivial = an offender that got as far as sending an LDAP request; distinct by hash of (target, offender)",
 		Gen: func(t *rapid.T) c18Case {
 			c := c18Case{
 				Target:     rapid.SampledFrom([]string{"server-tls", "server-mtls", "server-mtls", "dir-mtls", "dir-mtls"}).Draw(t, "target"),
